@@ -10,6 +10,7 @@ import (
 	"math/rand/v2"
 	"os"
 	"path/filepath"
+	"runtime/debug"
 	"strings"
 	"sync"
 	"sync/atomic"
@@ -237,6 +238,10 @@ func (s *seq) checkOpened(app appendable.Appendable, what string) (int64, bool) 
 	}
 	s.c.Eval(3)
 	outcome := "same"
+	if !sameMeta(meta, s.cf.Meta) && len(s.cf.Meta) >= 3000 {
+		s.violationK(s.baseKind(), "reopen/large-metadata-not-read-back", fmt.Sprintf("metadata of %d bytes after %s: got %d bytes, equal=false", len(s.cf.Meta), what, len(meta)), true)
+		return sz, false
+	}
 	if !sameMeta(meta, s.cf.Meta) {
 		s.violation(what+"/metadata-differs", fmt.Sprintf("metadata after %s: got %x want %x", what, meta, s.cf.Meta), true)
 		return sz, false
@@ -946,7 +951,7 @@ func (s *seq) opDiscard() {
 		case 1:
 			off = L + 1 + s.r.Int64N(u) // beyond: must be refused
 		case 2:
-			off = (s.r.Int64N(L/u+1)) * u
+			off = (s.r.Int64N(L/u + 1)) * u
 		default:
 			off = s.r.Int64N(L + 1)
 		}
@@ -1032,6 +1037,33 @@ func (s *seq) opSwitchRO() {
 }
 
 // ---- reads ----
+
+// riskyMu serialises compressed reads issued while the files may hold bytes beyond the logical
+// end: if the implementation picks up such bytes as an entry length it allocates up to 4 GiB per
+// read; one at a time keeps the monitor process alive so that it can report the wrong read.
+var riskyMu sync.Mutex
+
+func (s *seq) riskyRead(app appendable.Appendable, bs []byte, off int64) (rn int, err error, ok bool) {
+	if s.tail() != "clean" {
+		riskyMu.Lock()
+		defer riskyMu.Unlock()
+	}
+	ok = s.guardQuiet(func() { rn, err = app.ReadAt(bs, off) })
+	if s.tail() != "clean" && (rn != len(bs) || err != nil) {
+		debug.FreeOSMemory()
+	}
+	return
+}
+
+// guardQuiet is guard for calls that may run on reader goroutines (no shared sequence state touched).
+func (s *seq) guardQuiet(f func()) bool {
+	p, sig, text := fw.Guard(f)
+	if p {
+		s.c.Violation(sig, fmt.Sprintf("seq %d ReadAt (%s): %s", s.id, s.cfString(), text), nil)
+		return false
+	}
+	return true
+}
 
 func (s *seq) readRange() (off int64, n int) {
 	L := s.msize()
@@ -1267,7 +1299,9 @@ func (s *seq) readCompressed() {
 	var rn int
 	var err error
 	s.tr("ReadAt(len=%d, entry off=%d len=%d)", n, e.off, len(e.data))
-	if !s.guard("ReadAt", func() { rn, err = s.app.ReadAt(bs, e.off) }) {
+	var ok bool
+	if rn, err, ok = s.riskyRead(s.app, bs, e.off); !ok {
+		s.dead = true
 		return
 	}
 	out := s.judgeEntry(e, bs, rn, err, false)
@@ -1345,7 +1379,9 @@ func (s *seq) verify(app appendable.Appendable, what string, span int64) bool {
 			bs := make([]byte, len(e.data))
 			var rn int
 			var err error
-			if !s.guard("ReadAt", func() { rn, err = app.ReadAt(bs, e.off) }) {
+			var ok bool
+			if rn, err, ok = s.riskyRead(app, bs, e.off); !ok {
+				s.dead = true
 				return false
 			}
 			if s.judgeEntry(e, bs, rn, err, false) == "MISMATCH" {
@@ -1381,6 +1417,16 @@ func (s *seq) verify(app appendable.Appendable, what string, span int64) bool {
 }
 
 // ---- copy / reopen ----
+
+// largeMetaOpenError: an open that fails with ErrCorruptedMetadata on metadata larger than one
+// buffered read is the same defect as metadata read back wrongly.
+func (s *seq) largeMetaOpenError(err error, what string) bool {
+	if len(s.cf.Meta) >= 3000 && errors.Is(err, singleapp.ErrCorruptedMetadata) {
+		s.violationK(s.baseKind(), "reopen/large-metadata-not-read-back", fmt.Sprintf("metadata of %d bytes: %s fails with %v", len(s.cf.Meta), what, err), true)
+		return true
+	}
+	return false
+}
 
 func (s *seq) opCopy() {
 	s.copies++
@@ -1422,6 +1468,9 @@ func (s *seq) opCopy() {
 		return
 	}
 	if err != nil {
+		if s.largeMetaOpenError(err, "copy") {
+			return
+		}
 		s.violation("copy/open-error", fmt.Sprintf("opening the copy: %v", err), false)
 		return
 	}
@@ -1479,6 +1528,9 @@ func (s *seq) opReopen() {
 			return
 		}
 		if err != nil {
+			if s.largeMetaOpenError(err, "reopen-ro") {
+				return
+			}
 			s.violation("reopen/open-error", fmt.Sprintf("read-only reopen: %v", err), true)
 			return
 		}
@@ -1501,6 +1553,9 @@ func (s *seq) opReopen() {
 		return
 	}
 	if err != nil {
+		if s.largeMetaOpenError(err, "reopen") {
+			return
+		}
 		s.violation("reopen/open-error", fmt.Sprintf("reopen: %v", err), true)
 		return
 	}
@@ -1509,7 +1564,10 @@ func (s *seq) opReopen() {
 	if !ok {
 		return
 	}
-	if sz != s.msize() && !s.rewindTo(s.msize(), "reopen") {
+	// compressed multiapp with left-over chunk files: an equal size may still be another position
+	// (chunk c over-long vs. a later left-over chunk); re-establish the position explicitly
+	ambiguous := s.comp() && s.cf.Multi && s.tail() != "clean" && s.msize() >= (s.curChunk+1)*int64(s.cf.FileSize)
+	if (sz != s.msize() || ambiguous) && !s.rewindTo(s.msize(), "reopen") {
 		return
 	}
 	if s.verify(app, "reopen", -1) {
@@ -1549,9 +1607,8 @@ func (s *seq) opConcurrent() {
 					bs := make([]byte, len(e.data))
 					var rn int
 					var err error
-					p, sig, text := fw.Guard(func() { rn, err = s.app.ReadAt(bs, e.off) })
-					if p {
-						s.c.Violation(sig, fmt.Sprintf("seq %d concurrent ReadAt: %s", s.id, text), nil)
+					var ok bool
+					if rn, err, ok = s.riskyRead(s.app, bs, e.off); !ok {
 						return
 					}
 					if s.judgeEntry(e, bs, rn, err, true) == "MISMATCH" {
